@@ -11,110 +11,11 @@ package config_parser
 // arbitrary bytes.  Run sharded: VERIF_SHARD=i, VERIF_SHARDS=n (every shard writes c17p<i>.*).
 
 import (
-	"encoding/hex"
 	"fmt"
-	"math/big"
 	"strings"
 	"testing"
-	"unicode/utf8"
 
-	"github.com/antlr/antlr4/runtime/Go/antlr/v4"
-	"github.com/daeuniverse/dae-config-dist/go/dae_config"
 )
-
-// ---------------------------------------------------------------- canonical AST rendering
-
-func c17Esc(s string) string {
-	var b strings.Builder
-	for i := 0; i < len(s); i++ {
-		c := s[i]
-		if (c >= '0' && c <= '9') || (c >= 'A' && c <= 'Z') || (c >= 'a' && c <= 'z') || c == '_' || c == '.' || c == '-' || c == '/' {
-			b.WriteByte(c)
-		} else {
-			fmt.Fprintf(&b, "%%%02x", c)
-		}
-	}
-	return b.String()
-}
-
-func c17KVs(ps []*Param) string {
-	out := make([]string, len(ps))
-	for i, p := range ps {
-		out[i] = c17Esc(p.Key) + "=" + c17Esc(p.Val)
-		if p.AndFunctions != nil || p.Annotation != nil {
-			out[i] += "<unexpected-nested>"
-		}
-	}
-	return strings.Join(out, ",")
-}
-
-func c17Fn(f *Function) string {
-	if f == nil {
-		return "<nil-fn>"
-	}
-	s := ""
-	if f.Not {
-		s = "!"
-	}
-	return s + c17Esc(f.Name) + "(" + c17KVs(f.Params) + ")"
-}
-
-func c17Fns(fs []*Function) string {
-	out := make([]string, len(fs))
-	for i, f := range fs {
-		out[i] = c17Fn(f)
-	}
-	return strings.Join(out, "&")
-}
-
-func c17Ann(a []*Param) string {
-	if len(a) == 0 {
-		return ""
-	}
-	return "[" + c17KVs(a) + "]"
-}
-
-func c17Items(items []*Item) string {
-	var b strings.Builder
-	for _, it := range items {
-		switch v := it.Value.(type) {
-		case *RoutingRule:
-			b.WriteString("R(" + c17Fns(v.AndFunctions) + ">" + c17Fn(&v.Outbound) + ")")
-			if it.Type != ItemType_RoutingRule {
-				b.WriteString("<bad-type>")
-			}
-		case *Param:
-			if v.AndFunctions != nil {
-				b.WriteString("F(" + c17Esc(v.Key) + ":" + c17Fns(v.AndFunctions) + ")" + c17Ann(v.Annotation))
-				if v.Val != "" {
-					b.WriteString("<val-and-fns>")
-				}
-			} else {
-				b.WriteString("V(" + c17Esc(v.Key) + "=" + c17Esc(v.Val) + ")" + c17Ann(v.Annotation))
-			}
-			if it.Type != ItemType_Param {
-				b.WriteString("<bad-type>")
-			}
-		case *Section:
-			b.WriteString("S(" + c17Esc(v.Name) + "){" + c17Items(v.Items) + "}")
-			if it.Type != ItemType_Section {
-				b.WriteString("<bad-type>")
-			}
-		default:
-			b.WriteString("<unknown-item>")
-		}
-		b.WriteString(";")
-	}
-	return b.String()
-}
-
-func C17Sections(ss []*Section) string {
-	var b strings.Builder
-	for _, s := range ss {
-		b.WriteString("S(" + c17Esc(s.Name) + "){" + c17Items(s.Items) + "}")
-	}
-	return b.String()
-}
 
 func c17ParseOut(in string) string {
 	return VRecover(func() string {
@@ -129,93 +30,6 @@ func c17ParseOut(in string) string {
 	})
 }
 
-// what ANTLR's InputStream sees: the runes of the string (invalid UTF-8 → U+FFFD)
-func c17Hex(in string) string { return hex.EncodeToString([]byte(string([]rune(in)))) }
-
-// ---------------------------------------------------------------- lexer probe
-
-func c17LexTypes(in []rune) (types []int, texts []string, hasErr bool) {
-	el := NewConsoleErrorListener()
-	lexer := dae_config.Newdae_configLexer(antlr.NewInputStream(string(in)))
-	lexer.RemoveErrorListeners()
-	lexer.AddErrorListener(el)
-	for {
-		t := lexer.NextToken()
-		if t.GetTokenType() == antlr.TokenEOF {
-			break
-		}
-		types = append(types, t.GetTokenType())
-		texts = append(texts, t.GetText())
-	}
-	return types, texts, el.ErrorBuilder.Len() != 0
-}
-
-const (
-	c17TokID    = 15
-	c17TokNonID = 16
-	c17TokQuote = 17
-)
-
-// class of one code point, observed through the real lexer only
-func c17Probe(c rune) (idHead, nonIdHead, safe, ws bool) {
-	ty, _, e := c17LexTypes([]rune{c})
-	idHead = !e && len(ty) == 1 && ty[0] == c17TokID
-	nonIdHead = !e && len(ty) == 1 && ty[0] == c17TokNonID
-	ty, tx, e := c17LexTypes([]rune{'a', c})
-	safe = !e && len(ty) == 1 && ty[0] == c17TokID && tx[0] == string([]rune{'a', c})
-	ty, _, e = c17LexTypes([]rune{'a', c, 'a'})
-	ws = !e && len(ty) == 2 && ty[0] == c17TokID && ty[1] == c17TokID
-	return
-}
-
-func c17ProbeClasses(t *testing.T, stats *VStats) string {
-	var bm [4]*big.Int
-	for i := range bm {
-		bm[i] = new(big.Int)
-	}
-	for c := rune(0); c < 128; c++ {
-		idh, nih, safe, ws := c17Probe(c)
-		if idh {
-			bm[0].SetBit(bm[0], int(c), 1)
-		}
-		if nih {
-			bm[1].SetBit(bm[1], int(c), 1)
-		}
-		if safe && !idh && !nih {
-			bm[2].SetBit(bm[2], int(c), 1)
-		}
-		if ws {
-			bm[3].SetBit(bm[3], int(c), 1)
-		}
-		if (idh || nih) && !safe {
-			t.Errorf("probe: %q is a head char but not a SAFE_CHAR", c)
-		}
-	}
-	// beyond ASCII no code point may belong to any class (the model's table is ASCII only)
-	check := func(c rune) {
-		if !utf8.ValidRune(c) {
-			return
-		}
-		idh, nih, safe, ws := c17Probe(c)
-		if idh || nih || safe || ws {
-			t.Errorf("probe: non-ASCII code point U+%04X has a lexer class (id=%v nonid=%v safe=%v ws=%v)", c, idh, nih, safe, ws)
-		}
-		stats.Inc("probe.nonascii")
-	}
-	if VThorough() && VEnvInt("VERIF_SHARD", 0) == 0 {
-		for c := rune(128); c <= 0x10FFFF; c += 1 {
-			if c >= 0x3000 && c < 0xF0000 && c%7 != 0 { // dense below U+3000 and in the last planes, 1/7 between
-				continue
-			}
-			check(c)
-		}
-	} else {
-		for _, c := range []rune{128, 0x85, 0xa0, 0xff, 0x100, 0x7ff, 0x800, 0x1680, 0x2000, 0x2028, 0x2029, 0x202f, 0x3000, 0xd7ff, 0xe000, 0xfeff, 0xfffd, 0xffff, 0x10000, 0x10ffff} {
-			check(c)
-		}
-	}
-	return fmt.Sprintf("classes %x %x %x %x", bm[0], bm[1], bm[2], bm[3])
-}
 
 // ---------------------------------------------------------------- grammar-directed generator
 
